@@ -10,7 +10,7 @@
    the sampler holds and the sampler's state just before the transition.  The legacy cuqi.sampler.Gibbs is the
    instance with stateless samplers (`lsweep`).  All statements are for every number of blocks, every assignment of
    samplers and step counts, every script and every history. *)
-From CV Require Import Base.Tac Base.Cmp Model.C09_Gibbs Proofs.C09_Wiring Proofs.C09_Run Proofs.C09_Legacy Proofs.C09_Finite Proofs.C09_Cache Proofs.C09_Examples.
+From CV Require Import Base.Tac Base.Cmp Model.C09_Gibbs Proofs.C09_Wiring Proofs.C09_Run Proofs.C09_Legacy Proofs.C09_Finite Proofs.C09_Cache Proofs.C09_Real Proofs.C09_Examples.
 From Coq Require Import QArith Qcanon.
 Local Open Scope nat_scope.
 
@@ -262,6 +262,25 @@ Proof.
 Qed.
 Print Assumptions C09_block_cache_consistent_refuted.
 
+(* ---- the model's kernels for the real exact samplers ---- *)
+(* Conjugate (Gaussian-Gamma pair): for a scalar block whose target is  t [p] = c - B p  up to terms not depending on p
+   (B = rate of the conditional Gamma; the k log p term is one of those the model's joint omits), the value the model's
+   KConj transition computes from the scripted standard variate z is z / B: the Gamma(shape, rate B) draw. *)
+Theorem C09_conjugate_draw : forall (t : vec -> Q) (B c p0 z : Q),
+  (forall p, t [p] == c - B * p)%Q -> ~ (p0 == 0)%Q -> ~ (B == 0)%Q ->
+  (z / ((t [p0] - t [2 * p0]) / p0) == z / B)%Q.
+Proof. exact conj_draw. Qed.
+Print Assumptions C09_conjugate_draw.
+
+(* the gradient the model keeps for samplers that cache one (exact central differences): entry j is the derivative at p
+   along coordinate j whenever the target restricted to that coordinate line is a quadratic polynomial *)
+Theorem C09_gradq_exact : forall (t : vec -> Q) (h : Q) (p : vec) (j : nat) (g a : Q),
+  j < length p -> ~ (h == 0)%Q ->
+  (forall d, t (bump p j d) == t (bump p j 0) + g * d + a * d * d)%Q ->
+  exists v, nth_error (gradq t h p) j = Some v /\ (v == g)%Q.
+Proof. exact gradq_exact. Qed.
+Print Assumptions C09_gradq_exact.
+
 (* non-vacuity: (1) a concrete run meets the hypotheses of the wiring and cache theorems; (2) the concrete sampler kinds
    keep their point under re-targeting and tuning; (3) a 2x2 lattice with weights 1,2,3,4 and the exact Gibbs kernels meets those of the invariance theorem *)
 Example C09_example :
@@ -270,5 +289,7 @@ Example C09_example :
   ((forall f i t s, s_pt (creinit f i t s) = s_pt s) /\ (forall i a b s, s_pt (ctune i a b s) = s_pt s)) /\
   (* the C01 one-step hypothesis holds for the conditioning operation the executable instance runs with *)
   (forall (jt : list vec -> Q) cur i (y : vec), nth_error cur i = Some y -> forall v, cond jt cur i v = jt (upd cur i v)) /\
+  (* a target of the form required by C09_conjugate_draw / C09_gradq_exact *)
+  (forall p, (fun v : vec => match v with [q] => 3 - 2 * q | _ => 0 end)%Q [p] == 3 - 2 * p)%Q /\
   Forall (fblock_ok 0%Z ex_all ex_pi) ex_blocks.
-Proof. split; [exact ex_run_ok | split; [exact ex_points_kept | split; [intros; reflexivity | exact ex_blocks_ok]]]. Qed.
+Proof. split; [exact ex_run_ok | split; [exact ex_points_kept | split; [intros; reflexivity | split; [intros; reflexivity | exact ex_blocks_ok]]]]. Qed.
